@@ -1,3 +1,173 @@
-PLANS = {}
+"""C08 (polynomial resamplers are the Lagrange interpolant) and C15 (SIMD kernels = scalar kernel):
+Kernels.tla checked by TLC + one-hot conformance of the real code validated against TraceTwin.tla."""
+import json, os, random, shutil, time
+from fractions import Fraction
+from . import gen, model, run, props
+
+PLANS = {
+    "C08": {"twin": ["TwinPoly", "TwinNear"], "model_inv": ["C08_Cardinal"]},
+    "C15": {"twin": ["KernelEq", "TwinCtl", "TwinNear"],
+            "model_inv": ["C15_LoopPairs", "C15_ResultExact", "C15_BranchDelay"]},
+}
+
+
+def kernels_cfg(ls, fs, invariants):
+    return ("SPECIFICATION Spec\nCONSTANTS\n  Ls = %s\n  FsK = %s\nCHECK_DEADLOCK FALSE\n" % (
+        model.setfmt(ls), model.setfmt(fs)) + "".join("INVARIANT %s\n" % i for i in invariants))
+
+
+def with_id(op, i):
+    o = dict(op)
+    o["id"] = i
+    return o
+
+
+DY_RATIOS = [Fraction(8), Fraction(4), Fraction(2), Fraction(16), Fraction(1), Fraction(1, 2), Fraction(8, 3),
+             Fraction(4, 3), Fraction(16, 5), Fraction(1, 4), Fraction(8, 7), Fraction(32, 5)]
+
+
+def c08_scripts(rng, tier):
+    """index-signal instance + one-hot instance, identical calls; dyadic phase grids (ratio 2^k/odd)."""
+    S = []
+    n = {"quick": 6, "thorough": 80}[tier]
+    for _ in range(n):
+        for deg in ["Septic", "Quintic", "Cubic", "Linear", "Nearest"]:
+            for kind in ("FastFixedIn", "FastFixedOut"):
+                r = rng.choice(DY_RATIOS)
+                T = rng.choice([64, 64, 32])
+                chunk = rng.choice([8, 16, 32, 64, 100]) if kind == "FastFixedIn" else rng.choice([16, 64, 128, 333])
+                base = {"op": "new", "kind": kind, "T": T, "ch": 1, "r": gen.rj(r), "maxrel": gen.rj(Fraction(1)),
+                        "degree": deg, "chunk": chunk, "seed": 3, "taus_cap": 100000}
+                hots = sorted(rng.sample(range(9, 60), 3))
+                a = dict(base); a["signal"] = "index"; a["T"] = 64
+                ops = [with_id(a, 0)]
+                for k, h in enumerate(hots):
+                    b = dict(base); b["signal"] = "impulse"; b["imp"] = [h]; b["vals"] = True
+                    ops.append(with_id(b, 1 + k))
+                    ops.append({"op": "note", "twin": "poly", "a": 0, "b": 1 + k, "c": h, "degree": deg})
+                need_in = 80
+                per_in = chunk if kind == "FastFixedIn" else max(1, int(chunk / float(r)))
+                calls = min(120, need_in // per_in + 3)
+                for _c in range(calls):
+                    for i in range(1 + len(hots)):
+                        ops.append({"op": "process", "id": i})
+                S.append(ops)
+    # direct guard: monomials n^d of admissible degree are reproduced (numeric comparison f32 vs f64 paths
+    # is not meaningful here; the guard compares a polynomial-input instance against the instant-probe:
+    # handled through TwinPoly by linearity, nothing else to add)
+    return S
+
+
+def c15_scripts(rng, tier):
+    S = []
+    n = {"quick": 8, "thorough": 100}[tier]
+    # ---- one-hot probes of the public kernels
+    for _ in range(n):
+        for T in (32, 64):
+            L = rng.choice([8, 16, 24, 32, 64, 128, 256])
+            F = rng.choice([1, 2, 4, 16, 128, 256])
+            pairs = []
+            for _p in range({"quick": 6, "thorough": 20}[tier]):
+                pairs.append([rng.randrange(0, 40), rng.randrange(0, F), rng.randrange(0, 8)])
+            pairs.append([0, 0, 0])
+            pairs.append([3, F - 1, 1])
+            S.append([{"op": "kernels", "T": T, "L": L, "F": F, "window": rng.choice(gen.WINDOWS),
+                       "fcut_milli": rng.choice([950, 900, 500, 990]), "seed": rng.randrange(1 << 20),
+                       "pairs": pairs}])
+    # ---- resamplers built on each kernel vs the dispatched one: identical control decisions and
+    #      outputs within the summation-order bound (guard)
+    for _ in range(n):
+        for kind in ("SincFixedIn", "SincFixedOut"):
+            h = gen.valid_history(rng, kind, rng.randrange(4, 14), allow=("ratio", "ramp", "chunk", "reset"))
+            base = h[0]
+            base["signal"] = rng.choice(["noise", "big"])
+            base["ch"] = 1
+            if base["kind"] == "SincFixedIn":
+                base["maxrel"] = {"p": 11, "q": 10}
+            if base.get("F") == 1:
+                base["F"] = 2
+            names = ["dispatch", "scalar", "avx", "sse"]
+            ops = []
+            for i, nm in enumerate(names):
+                b = dict(base); b["probe"] = nm
+                ops.append(with_id(b, i))
+            for i in range(1, len(names)):
+                ops.append({"op": "note", "twin": "ctl", "a": 0, "b": i})
+            L = 8 * ((base["L"] + 7) // 8)
+            for o in h[1:]:
+                for i in range(len(names)):
+                    ops.append(with_id(o, i))
+                if o["op"] == "process":
+                    for i in range(1, len(names)):
+                        # |a - b| <= 2 * (4 points) * L * eps * sum|products| ~ 64 * L eps * peak (guard)
+                        ops.append({"op": "cmp", "a": 0, "b": i, "bound": 64 * L})
+            S.append(ops)
+    return S
+
+
 def check(prop, tier, seed, replay=None):
-    raise NotImplementedError
+    t0 = time.time()
+    rng = random.Random(seed)
+    plan = PLANS[prop]
+    wd = run.workdir(prop)
+    run.build_harness()
+    if replay:
+        ok, out = run.replay_hard(replay, plan["twin"], wd, module="TraceTwin")
+        print(out[-3000:] if not ok else "replay: all predicates hold on " + replay)
+        return 0 if ok else 1
+    cov = {"states": 0, "transitions": 0, "traces_validated_against_impl": 0, "samples": [],
+           "model_runs": [], "scripts": {}}
+    ls = [8, 16, 24, 32, 64] if tier == "quick" else [8, 16, 24, 32, 40, 48, 56, 64, 128, 256]
+    fs = [1, 2, 3, 4, 16] if tier == "quick" else [1, 2, 3, 4, 5, 7, 16, 32, 64]
+    res = model.check_model("Kernels", kernels_cfg(ls, fs, plan["model_inv"]), wd, prop + "-kernels", workers=4)
+    if not res["ok"]:
+        raise run.ToolError("Kernels.tla fails on its own: " + res["error"])
+    cov["states"] += res["distinct"]
+    cov["transitions"] += res["generated"]
+    cov["model_runs"].append({"module": "Kernels", "Ls": ls, "FsK": fs, "distinct": res["distinct"],
+                              "generated": res["generated"], "invariants": plan["model_inv"], "ok": True})
+    S = (c08_scripts if prop == "C08" else c15_scripts)(rng, tier)
+    cov["scripts"]["total"] = len(S)
+    pairs = run.run_scripts(S, wd)
+    r = run.validate_traces(pairs, plan["twin"], wd, module="TraceTwin", tag=prop)
+    cov["states"] += r["states"]
+    cov["transitions"] += r["transitions"]
+    cov["traces_validated_against_impl"] = r["traces"]
+    cov["events_validated"] = r["events"]
+    # which kernels were actually exercised on this host
+    absent = set()
+    for sp, tp in pairs[:50]:
+        for e in run.read_trace(tp):
+            if e.get("ev") == "kernel":
+                for nm, d in zip(e["names"], e["dig"]):
+                    if d == "absent":
+                        absent.add(nm)
+    cov["kernels_not_exercised_on_this_host"] = sorted(absent | {"neon32", "neon64"}) if prop == "C15" else []
+    lines, nviol, seen = [], 0, set()
+    for kind, name, script, line, ev, kfid in r["viols"]:
+        if (script, name) in seen:
+            continue
+        seen.add((script, name))
+        nviol += 1
+        keep = run.save_replay(prop, script)
+        lines.append("VIOLATION property=%s replay=%s predicate=%s line=%d" % (prop, keep, name, line))
+    for sp, tp in pairs[:2]:
+        evs = run.read_trace(tp)
+        cov["samples"].append({"script": [json.loads(l) for l in open(sp)][:4],
+                               "events": [{k: (e.get(k) if k not in ("taus", "vals") else e.get(k)[:4])
+                                           for k in ("ev", "id", "res", "nout", "dig", "names", "outside_zero", "taus", "vals")
+                                           if k in e} for e in evs[1:6]]})
+    cov["predicates"] = plan["twin"] + plan["model_inv"]
+    cov["rule"] = ("states/transitions: TLC on Kernels.tla (symbolic execution of every kernel's loop and reduction for "
+                   "each L; cardinal check of every coefficient table) plus TLC trace validation of one-hot runs")
+    wall = time.time() - t0
+    run.write_evidence(prop, tier, seed, "model_checking", cov, wall, nviol,
+                       ["discrete core only: exact pairing of taps / cardinal polynomials at dyadic phases; rounding-level "
+                        "claims are guarded by a numeric bound (TwinNear) and not decided by the specification",
+                        "NEON kernels are modelled but cannot be executed on this x86-64 host"])
+    for l in lines:
+        print(l)
+    print("%s %s: %d traces, %d events, %d states, %d violations, %.1fs" % (
+        prop, tier, r["traces"], r["events"], cov["states"], nviol, wall))
+    shutil.rmtree(wd, ignore_errors=True)
+    return 1 if nviol else 0
